@@ -81,6 +81,12 @@ def Val.len : Val → Nat
   | .bytes b => b.length
   | _ => 0
 
+/-- the member occupies a slot of fixed size (it is not a dynamic or greedy array) -/
+def MKind.isStatic : MKind → Bool
+  | .dyn _ => false
+  | .greedy => false
+  | _ => true
+
 def MKind.sizer? : MKind → Option String
   | .dyn s => some s
   | .limited s _ => some s
